@@ -354,6 +354,7 @@ inductive K where
   | loopTest (untl : Bool) (cond body : List Cmd) (last : Nat)
   | loopBack (untl : Bool) (cond body : List Cmd)
   | restore (s : Saved)
+  | negK                                    -- after the command of `! command`
   deriving Repr
 
 def cmds (l : List Cmd) : List K := l.map K.cmd
@@ -491,6 +492,8 @@ def step (bodies : List (List Char)) (k : List K) (s : State) : Option (List K Ã
   | .restore sv :: k =>
     some (k, { s with vars := sv.vars, aliases := sv.aliases, verbose := sv.verbose,
                       portable := sv.portable })
+  | .cmd (.neg c) :: k => some (.cmd c :: .negK :: k, s)
+  | .negK :: k => some (k, { s with status := if s.status = 0 then 1 else 0 })
 
 /-- run a continuation to its end (`fuel` steps at most; `false` when the fuel ran out) -/
 def runK (bodies : List (List Char)) : Nat â†’ List K â†’ State â†’ State Ã— Bool
